@@ -23,6 +23,8 @@ CLAIMED = {
          "Level `other`: the engines (table-driven PLY code) are not under contract, so 'parsing returns exactly ...' end to end rests on the assumed LEX/YACC contracts plus the bounded stand-in. One known finding (unquoted text ending in a number token is rejected) is listed in known_findings.json."),
  "C11": ("other", "proved: t_newline/t_STRING advance lineno by exactly the line breaks consumed, no other rule consumes a line break (L-NL lemmas), count_line_breaks, Parser.parse resets lineno before every parse, every node-building action stores p.lineno(1), exception classes and the parameter cleaners report the line they were given; B-LINES: real parses with CRLF, comments, multi-line arguments and repeated parses on one Parser (bounded)",
          "Level `other`: the step from token lines to p.lineno(k) is the assumed YACC contract. Line threading through from_source/add_command and the CLI window are added under C12/C13 when those are registered."),
+ "C16": ("other", "TABLE: every entry of the extracted EEMS_COMMANDS literal names a command class of the EEMS libraries (exhaustive; two entries are a recorded known finding); contracts of convert_eems2_commands and its nested find_argument verified by symbolic execution: find_argument = value of the first argument with that name else None (loop invariant), each appended node has result name = own name / NewFieldName / InFieldName in that order, command mapped through the table, NewFieldName/OutFileName arguments dropped in order, line kept, one node per parsed node; bounded: Program.from_source of v2 texts vs their v3 transcriptions on the real loader",
+         "Level `other` because two table obligations are not discharged (known finding: ScoreRangeBenefit/ScoreRangeCost do not exist) and the v2 syntax step rests on C10's assumed PLY engines."),
  "C19": ("other", "expression-level contracts proved by SMT (strings): the registry-selection predicate of Program.__init__ equals the statement's `requested library or its sub-module`; duplicate detection per command name among the selected entries; command_library = name -> class over exactly the selected entries; CommandMeta.__new__ registers iff no entry with the same (module, command name) exists and the registry is monotone. load_commands / the import system / Counter are assumed; a bounded history battery (generated packages with prefix-related names, earlier Program constructions and run-time class definitions, compared with a fresh interpreter) runs on the real code",
          "Level `other`: the deciding expressions are under contract and proved for all strings, but Program.__init__ as a whole (set iteration, Counter, import side effects) is not symbolically executed; history independence is a lemma over those expression contracts plus the bounded battery."),
  "C20": ("proof", "TYPED / RAISES_ONLY / PURE / DETERMINISTIC / IDEMPOTENT obligations of the ten Parameter.clean bodies over an arbitrary dynamic value (recursive Val datatype), symbolic parameter configuration and program",
